@@ -1,6 +1,6 @@
 (* Pinned statements of C04 (generated once by tools/mkpins.py from coq/props/C04.v, then committed). *)
 From DV Require Import Model.Base Model.Parser Model.Header Model.Readers Spec.NameSpec Spec.RecordSpec Proofs.Hoare Proofs.HeaderBits
-  Proofs.SummaryBits Proofs.ReadersLabels Proofs.QuestionSpec Proofs.EdnsFacts Proofs.WalkSkip Proofs.EdnsPlain props.C04.
+  Proofs.SummaryBits Proofs.ReadersLabels Proofs.QuestionSpec Proofs.EdnsFacts Proofs.WalkSkip Proofs.EdnsPlain Spec.PacketSpec Proofs.HeaderFields props.C04.
 Local Open Scope N_scope.
 Check (C04_flags_word : forall w x i, w < 65536 ->
   N.testbit (w_flags w x) i =
@@ -38,3 +38,6 @@ Check (C04_summary_of_opt_record : forall p v, bytes_ok p -> parse p = Ok v ->
     records_at p e2 lr (length p) /\ length lr = N.to_nat ar /\
     summary_of p (find is_opt (la ++ ln ++ lr)) v).
 Print Assumptions C04_summary_of_opt_record.
+Check (C04_id_opcode_rcode : forall p t w, bytes_ok p -> u16_at p 0 t -> u16_at p 2 w ->
+  pk_tid p = Ok t /\ pk_rcode p = Ok (w mod 16) /\ pk_opcode p = Ok ((w / 2048) mod 16)).
+Print Assumptions C04_id_opcode_rcode.
